@@ -98,7 +98,7 @@ func validCorpus() []VFrame {
 				if sl.N == 256 && !(val == 0 || val == 1 || val == 0x80 || val == 0x87 || val == 0xff) {
 					return true
 				}
-				if sl.N > 256 && val >= 40+8 { // codes slot of SUBACK: sequences + a few single values
+				if sl.N > 256 && val >= gen.NumSeqs+8 { // codes slot of SUBACK: sequences + a few single values
 					return true
 				}
 				return false
